@@ -348,14 +348,16 @@ func (i InfixExpression) PrettyPrint(out *PrintState) *PrintState {
 		out.Print("(")
 	}
 	i.Left.PrettyPrint(out)
-	if out.Compact {
+	switch {
+	case i.Right == nil:
+		// open ended range a[n:] - printing "nil" would re-parse as an identifier operand and fail to evaluate.
 		out.Print(i.Literal())
-	} else {
+	case out.Compact:
+		out.Print(i.Literal())
+	default:
 		out.Print(" ", i.Literal(), " ")
 	}
-	if i.Right == nil {
-		out.Print("nil")
-	} else {
+	if i.Right != nil {
 		i.Right.PrettyPrint(out)
 	}
 	if needParen {
